@@ -29,6 +29,10 @@ def tasks(tier, seed):
     out = []
     for i, p in enumerate(P):
         out.append(dict(p, opts={"backend": BACKENDS[i % 3] if tier == "quick" else None}))
+    # the remove-unused option and the argument-order option must not change what Euler computes
+    from . import c12, c04
+    for i, t in enumerate(c12.UNUSED + c04.EXTRA):
+        out.append({"family": "OPTS", "id": families.text_id(t), "text": t, "opts": {"backend": None, "remove_unused": True, "orders": i < 4}})
     return out + witness_tasks(PROP)
 
 
@@ -38,6 +42,7 @@ def work(task):
     if ode is None:
         return prog.result()
     b = task.get("opts", {}).get("backend")
+    ru = task.get("opts", {}).get("remove_unused", False)
     for backend in ([b] if b else BACKENDS):
         view = checks.make_view(prog, ode, backend, schemes=["explicit_euler"])
         if view is None:
@@ -45,6 +50,17 @@ def work(task):
         checks.check_euler(prog, view, m)
         if backend == "c":
             view.close()
+        if ru:
+            vr = checks.make_view(prog, ode, backend, label=f"{backend}|get_code|remove_unused", schemes=["explicit_euler"], remove_unused=True)
+            if vr is not None:
+                # against the reference (not only against its own rhs): slot of state X holds x + dt*f_X
+                checks.check_named_slots(prog, vr, m, "rhs", "state", [n for n in m.assigns if m.derivative_of(n)], "rhs", tag="|ru")
+                checks.check_euler(prog, vr, m, fn="explicit_euler", tag="|ru")
+                if backend == "c":
+                    vr.close()
+        if task.get("opts", {}).get("orders"):
+            from .c04 import check_orders
+            check_orders(prog, ode, m, backend, "quick")
     # aliases (numpy): same body under every accepted name
     from gotranx.codegen.python import PythonCodeGenerator, Format
     from gotranx.schemes import get_scheme
